@@ -360,6 +360,44 @@ pub fn run(ctx: &Ctx) -> Report {
     });
     total.merge(random);
 
+    // nesting up to the bound of 64 and long operator chains (counters, recursion limits)
+    let mut st = Stats::new();
+    let t = || W::Prim(E::T(Tst::True));
+    for n in 1..=64usize {
+        let mut ws = vec![W::LP; n];
+        ws.push(t());
+        ws.extend(vec![W::RP; n]);
+        let v = judge_words(&ws);
+        st.record(&v, stable_hash(&ws), true, || json!({"kind": "words", "text": format!("( x{n} -true ) x{n}"), "words": ws.iter().map(word_text).collect::<Vec<_>>()}));
+        let mut ws = vec![W::Not; n];
+        ws.push(t());
+        let v = judge_words(&ws);
+        st.record(&v, stable_hash(&ws), true, || words_json(&ws));
+        // mixed: ( ! ( ! ... -true ) )
+        let mut ws = vec![];
+        for i in 0..n {
+            ws.push(if i % 2 == 0 { W::LP } else { W::Not });
+        }
+        ws.push(t());
+        ws.extend(vec![W::RP; (n + 1) / 2]);
+        let v = judge_words(&ws);
+        st.record(&v, stable_hash(&ws), true, || words_json(&ws));
+    }
+    for n in [10usize, 100, 127, 128, 129, 255, 256, 257, 400] {
+        for op in [Some(W::And(false)), Some(W::And(true)), None, Some(W::Or(false)), Some(W::Or(true)), Some(W::Comma)] {
+            let mut ws = vec![t()];
+            for i in 0..n {
+                if let Some(o) = &op {
+                    ws.push(o.clone());
+                }
+                ws.push(if i % 3 == 0 { W::Prim(E::A(Act::Print)) } else { t() });
+            }
+            let v = judge_words(&ws);
+            st.record(&v, stable_hash(&ws), true, || json!({"kind": "words", "text": format!("chain of {n} operands"), "words": ws.iter().map(word_text).collect::<Vec<_>>()}));
+        }
+    }
+    total.merge(st);
+    total.exhaustive_parts.push("parenthesis / negation nesting of every depth 1..=64; operator chains of 10..400 operands for every operator spelling".into());
     // coverage-guided part: replay of the committed corpus (quick), libFuzzer campaign (thorough)
     crate::fuzzrun::replay_corpus("grammar", &mut total);
     if ctx.tier == Tier::Thorough && ctx.part.is_none() {
